@@ -1,0 +1,82 @@
+//! Verification hooks (compiled only with `--cfg sierradb_verif`).
+//!
+//! Additive observability for the runtime monitors under /verif: named points
+//! that report an event (and may block or sleep inside the installed callback),
+//! Without an
+//! installed callback and without the `SIERRA_VERIF_*` environment variables
+//! every point is a no-op.
+
+use std::io::Write;
+use std::sync::{Mutex, OnceLock};
+
+type Callback = Box<dyn Fn(&'static str, &[u64]) + Send + Sync>;
+
+static CALLBACK: OnceLock<Callback> = OnceLock::new();
+
+/// Install the in-process callback (first call wins).
+pub fn install(cb: Callback) {
+    let _ = CALLBACK.set(cb);
+}
+
+struct EnvCfg {
+    log: Option<Mutex<std::fs::File>>,
+    delays: Vec<(String, u64)>,
+}
+
+fn env_cfg() -> &'static EnvCfg {
+    static CFG: OnceLock<EnvCfg> = OnceLock::new();
+    CFG.get_or_init(|| {
+        let log = std::env::var("SIERRA_VERIF_EVENTLOG").ok().and_then(|p| {
+            std::fs::OpenOptions::new()
+                .create(true)
+                .append(true)
+                .open(p)
+                .ok()
+                .map(Mutex::new)
+        });
+        let delays = std::env::var("SIERRA_VERIF_DELAYS")
+            .ok()
+            .map(|s| {
+                s.split(',')
+                    .filter_map(|kv| {
+                        let (k, v) = kv.split_once('=')?;
+                        Some((k.to_string(), v.parse().ok()?))
+                    })
+                    .collect()
+            })
+            .unwrap_or_default();
+        EnvCfg { log, delays }
+    })
+}
+
+/// A named hook point. `args` are small integers describing the event.
+pub fn point(name: &'static str, args: &[u64]) {
+    if let Some(cb) = CALLBACK.get() {
+        cb(name, args);
+        return;
+    }
+    let cfg = env_cfg();
+    if let Some(log) = &cfg.log {
+        let mut line = String::with_capacity(64);
+        line.push_str(name);
+        for a in args {
+            line.push(' ');
+            line.push_str(&a.to_string());
+        }
+        line.push('\n');
+        if let Ok(mut f) = log.lock() {
+            let _ = f.write_all(line.as_bytes());
+        }
+    }
+    for (k, ms) in &cfg.delays {
+        if k == name {
+            std::thread::sleep(std::time::Duration::from_millis(*ms));
+        }
+    }
+}
+
+/// Split a UUID into two u64 halves for `point` arguments.
+pub fn uuid_parts(id: &uuid::Uuid) -> (u64, u64) {
+    let v = id.as_u128();
+    ((v >> 64) as u64, v as u64)
+}
